@@ -294,6 +294,9 @@ def range_len(start, stop, step):
 def getitem(I, v, k):
     if isinstance(v, VObj) and v.tag in ('bucket', 'symlist'):
         return getitem(I, v.as_seq(), k)
+    if isinstance(v, VObj) and v.tag in ('symkeylist', 'symmap'):
+        from . import symcoll
+        return symcoll.sym_getitem(I, v, k)
     if isinstance(v, VObj) and v.tag == 'keyval':
         from . import symcoll
         ci = concrete_int(k)
@@ -367,6 +370,9 @@ def setitem(I, obj, k, v):
     if isinstance(obj, VObj) and obj.tag == 'symdict':
         from . import symcoll
         return symcoll.store_item(I, obj, k, v)
+    if isinstance(obj, VObj) and obj.tag in ('symkeylist', 'symmap'):
+        from . import symcoll
+        return symcoll.sym_setitem(I, obj, k, v)
     if isinstance(obj, VObj):
         si = None
         for kls in obj.pycls.__mro__:
@@ -501,11 +507,20 @@ def seq_class(I, s):
         known = root.seq_classes = []
     from .explore import quick_valid
     gi = z3.Int('ge!class')      # the whole query is one generic-element goal: a fixed name lets repeats hit the memo
+    found = None
     for other, cid in known:
         goal = seq_eq(s, other, fi=gi)
         if quick_valid(ctx.pc, goal):
-            s.cls_id = cid
-            return cid
+            if found is None:
+                found = cid
+            else:
+                # two classes that were distinct when they were registered coincide under the
+                # current path condition (e.g. after a case split): their reductions agree here
+                for rid in REDUCE.values():
+                    ctx.add(reduce_f(z3.IntVal(rid), z3.IntVal(found)) == reduce_f(z3.IntVal(rid), z3.IntVal(cid)))
+    if found is not None:
+        s.cls_id = found
+        return found
     cid = len(known) + 1
     known.append((s, cid))
     s.cls_id = cid
@@ -524,12 +539,19 @@ def filtered_length(I, s):
     if known is None:
         known = root.pred_classes = []
     i = z3.Int('pc!class')       # one generic index per query (see seq_class)
+    from .explore import quick_valid
+    found = None
     for other, cid in known:
         goal = z3.And(s.src_len == other.src_len,
                       z3.Implies(z3.And(i >= 0, i < s.src_len), s.pred(i) == other.pred(i)))
-        from .explore import quick_valid
         if quick_valid(ctx.pc, goal):
-            return count_f(z3.IntVal(cid))
+            if found is None:
+                found = cid
+            else:
+                # classes registered as distinct coincide under the current path condition
+                ctx.add(count_f(z3.IntVal(found)) == count_f(z3.IntVal(cid)))
+    if found is not None:
+        return count_f(z3.IntVal(found))
     cid = len(known) + 1
     known.append((s, cid))
     t = count_f(z3.IntVal(cid))
